@@ -534,7 +534,97 @@ def new_params_as_defaults(tree, modname):
                                 n += 1
             if n:
                 applied.setdefault(q, []).append(name)
+        if q in applied:
+            _ConstFold().visit(fn)
+            ast.fix_missing_locations(fn)
     return applied
+
+
+class _ConstFold(ast.NodeTransformer):
+    """`None is None`, `x and True`, `if False:` ... left behind by reading a hook parameter as its default"""
+
+    def visit_Compare(self, node):
+        self.generic_visit(node)
+        if len(node.ops) == 1 and isinstance(node.left, ast.Constant) and isinstance(node.comparators[0], ast.Constant) \
+                and isinstance(node.ops[0], (ast.Is, ast.IsNot)) and (node.left.value is None or node.comparators[0].value is None):
+            same = node.left.value is None and node.comparators[0].value is None
+            return ast.copy_location(ast.Constant(value=same if isinstance(node.ops[0], ast.Is) else not same), node)
+        return node
+
+    def visit_UnaryOp(self, node):
+        self.generic_visit(node)
+        if isinstance(node.op, ast.Not) and isinstance(node.operand, ast.Constant) and isinstance(node.operand.value, bool):
+            return ast.copy_location(ast.Constant(value=not node.operand.value), node)
+        return node
+
+    def visit_BoolOp(self, node):
+        self.generic_visit(node)
+        is_and = isinstance(node.op, ast.And)
+        vals = []
+        for v in node.values:
+            if isinstance(v, ast.Constant) and isinstance(v.value, bool):
+                if v.value != is_and:
+                    return ast.copy_location(ast.Constant(value=v.value), node)  # False in an and / True in an or decides (as a test)
+                continue
+            vals.append(v)
+        if not vals:
+            return ast.copy_location(ast.Constant(value=is_and), node)
+        if len(vals) == 1:
+            return vals[0]
+        node.values = vals
+        return node
+
+    def visit_IfExp(self, node):
+        self.generic_visit(node)
+        if isinstance(node.test, ast.Constant) and isinstance(node.test.value, bool):
+            return node.body if node.test.value else node.orelse
+        return node
+
+    def _body(self, stmts):
+        out = []
+        for st in stmts:
+            st = self.visit(st)
+            if isinstance(st, list):
+                out.extend(st)
+            elif st is not None:
+                out.append(st)
+        return out
+
+    def visit_If(self, node):
+        node.test = self.visit(node.test)
+        node.body = self._body(node.body)
+        node.orelse = self._body(node.orelse)
+        if isinstance(node.test, ast.Constant) and isinstance(node.test.value, bool):
+            return (node.body if node.test.value else node.orelse) or [ast.copy_location(ast.Pass(), node)]
+        if not node.body:
+            node.body = [ast.copy_location(ast.Pass(), node)]
+        return node
+
+    def generic_visit(self, node):
+        for fld in ("body", "orelse", "finalbody"):
+            b = getattr(node, fld, None)
+            if isinstance(b, list) and b and isinstance(b[0], ast.stmt) and not isinstance(node, ast.If):
+                setattr(node, fld, self._body(b) or [ast.Pass()])
+        for fld, val in ast.iter_fields(node):
+            if fld in ("body", "orelse", "finalbody") and isinstance(val, list) and val and isinstance(val[0], ast.stmt):
+                continue
+            if isinstance(val, list):
+                new = []
+                for item in val:
+                    if isinstance(item, ast.AST):
+                        r = self.visit(item)
+                        if isinstance(r, list):
+                            new.extend(r)
+                        elif r is not None:
+                            new.append(r)
+                    else:
+                        new.append(item)
+                val[:] = new
+            elif isinstance(val, ast.AST):
+                r = self.visit(val)
+                if r is not None and not isinstance(r, list):
+                    setattr(node, fld, r)
+        return node
 
 
 def _blocks(fn):
